@@ -397,3 +397,96 @@ _c03_prev = harnesses
 
 def harnesses(tier):   # noqa: F811
     return _c03_prev(tier) + [DescribeUnit(3 if tier == 'quick' else 4)]
+
+
+# --------------------------------------------------------------------------------------------------------------
+# A rational on one side and a float on the other (targets such as `(4 m^2)^(1/2)` are float-valued): the operands must not
+# be swapped or mixed up on the way to the float operation.
+
+class MixedFloat(Harness):
+    name = 'eval_expr.rational_with_float'
+    props = ('C03', 'C01')
+    entry = 'eval_expr'
+    stubs = (LOOKUP_STUB, SHOW_STUB)
+    loop_bound = 12
+    describe = ('eval_expr on `a - b`, `a / b`, `b - a`, `b / a` with a an arbitrary rational and b one of the floats 2.0, 0.5, 3.0: the float result is '
+                'the exact result up to rounding (relative 1e-9)')
+    bounds = ['float operand from {2.0, 0.5, 3.0}; 2^-500 < |a| < 2^500; floats by value with IEEE rounding bounds']
+    expect_classes = ['Result::Ok']
+    _concrete = None
+    FLOATS = [Fraction(2), Fraction(1, 2), Fraction(3)]
+    OPS = ['Sub', 'Frac']
+
+    def build(self, ex, I):
+        a = I.real('a')
+        b = self.FLOATS[ex.choose(len(self.FLOATS), 'float operand')]
+        op = self.OPS[ex.choose(len(self.OPS), 'operator')]
+        left_is_float = ex.choose(2, 'float on the left')
+        aa = z3.If(a >= 0, a, -a)
+        ex.assume(z3.And(aa > zreal(Fraction(1, 2 ** 500)), aa < 2 ** 500))      # no float overflow / underflow in play
+        ex.env['units'] = {'a': number(rational(a), dim({})), 'b': number(floatnum(F64(b, False, False)), dim({}))}
+        l, r = (expr_unit(ex, 'b'), expr_unit(ex, 'a')) if left_is_float else (expr_unit(ex, 'a'), expr_unit(ex, 'b'))
+        return [ref(Opaque('Context')), ref(expr_binop(ex, op, l, r))], {'a': a, 'b': b, 'op': op, 'lf': left_is_float}
+
+    def post(self, ex, ctx, outcome):
+        r = deref_all(outcome[1])
+        a, b = zreal(ctx['a']), zreal(ctx['b'])
+        if not is_ok(r):
+            return [('rational op float is defined', False)]
+        v = deref_all(payload(r))
+        val, d = number_parts(v.fields[0])
+        kind, x = numeric_parts(val)
+        if kind != 'float':
+            return [('the result of a float operand is a float', False)]
+        l, rr = (b, a) if ctx['lf'] else (a, b)
+        exact = l - rr if ctx['op'] == 'Sub' else l / rr
+        diff = zreal(x.val) - exact
+        mag = z3.If(exact >= 0, exact, -exact)
+        tol = mag * zreal(Fraction(1, 10 ** 9)) + zreal(Fraction(1, 10 ** 300))
+        return [('the float result is not NaN', z3.Not(zbool(x.nan))),
+                ('%s %s %s up to rounding' % ('b' if ctx['lf'] else 'a', {'Sub': '-', 'Frac': '/'}[ctx['op']], 'a' if ctx['lf'] else 'b'),
+                 z3.And(diff <= tol, -diff <= tol))]
+
+    def case(self, ctx, vals, label):
+        c = Harness.case(self, ctx, vals, label)
+        c['inputs'].update({'b': str(ctx['b']), 'op': ctx['op'], 'float_left': int(ctx['lf'])})
+        return c
+
+    def prefer(self, ctx):
+        return [ctx['a'] == 10, z3.And(ctx['a'] > 0, ctx['a'] < 1000), z3.IsInt(ctx['a'])]
+
+    def native(self, inputs, label):
+        a, b = Fraction(inputs['a']), Fraction(inputs['b'])
+        ftxt = {Fraction(2): 'sqrt(4)', Fraction(1, 2): 'sqrt(1/4)', Fraction(3): 'sqrt(9)'}[b]
+        sym = {'Sub': '-', 'Frac': '/'}[inputs['op']]
+        l, r = (ftxt, '(%s)' % frac_text(a)) if int(inputs['float_left']) else ('(%s)' % frac_text(a), ftxt)
+        return [{'mode': 'query', 'text': '%s %s %s' % (l, sym, r)}]
+
+    def judge(self, inputs, label, obs):
+        q = obs[0]
+        if q.get('outcome') == 'panic' or q.get('render_panic'):
+            return True, 'panic %s' % (q.get('panic') or q.get('render_panic'))
+        a, b = Fraction(inputs['a']), Fraction(inputs['b'])
+        l, r = (b, a) if int(inputs['float_left']) else (a, b)
+        want = l - r if inputs['op'] == 'Sub' else l / r
+        j = q.get('json') or {}
+        rawv = ((j.get('rawValue') or {}).get('value')) if isinstance(j, dict) else None
+        got = None
+        if isinstance(rawv, dict):
+            for key in ('approxValue', 'exactValue'):
+                try:
+                    got = Fraction(rawv.get(key)) if rawv.get(key) not in (None, '') else got
+                except (ValueError, TypeError):
+                    pass
+            if got is None and rawv.get('numer') is not None:
+                got = Fraction(int(rawv['numer']), int(rawv['denom']))
+        if got is None:
+            return False, 'no value in the reply %s' % q.get('display')
+        return (abs(got - want) > abs(want) / 10 ** 5 + Fraction(1, 10 ** 9)), '%s gave %s, expected about %s' % (q.get('display'), float(got), float(want))
+
+
+_c03_prev2 = harnesses
+
+
+def harnesses(tier):   # noqa: F811
+    return _c03_prev2(tier) + [MixedFloat()]
